@@ -527,6 +527,10 @@ def gen_command(r: random.Random, nbs: list[dict], version: int, uid: int, state
         elif r.random() < 0.03:
             body = 'routes list'
             c.update(verb='routes-list', expect='ok', bad='', marker='')
+        elif r.random() < 0.04:
+            # the index form of the v6 route commands, with an index nobody holds: whatever the answer, exactly one
+            body = 'routes remove index %08x' % r.getrandbits(32)
+            c.update(verb='routes-remove-index', expect='any', bad='', marker='')
         alts, form = gen_selector(r, nbs, 'v6')
         if not with_selector:
             alts, form = [('*', [])], 'star'
